@@ -2,6 +2,8 @@
    schedule model.  ExtrOcamlBasic only. *)
 From Coq Require Import Extraction ExtrOcamlBasic.
 From Robsd Require Import Conf.ConfDefs Conf.ConfOracle Conf.SchedDefs Conf.SchedSpec.
+From Robsd Require Import Conf.SchedCanvasEnd.
 From RobsdGen Require Import Gen_Conf.
 Extraction Language OCaml.
-Extraction "cf_model.ml" robsd_config tables_of spec_config spec_accepts list_cmd resolve spec_full_ok spec_offset_ok.
+Extraction "cf_model.ml" robsd_config tables_of spec_config spec_accepts list_cmd resolve spec_full_ok spec_offset_ok
+  list_cmd_with canvas_end_reserved.
